@@ -2,11 +2,13 @@
    Proved: binary round-trip of every stream value; configuration / value codecs (LLO offchain: accepted on decode
    exactly when valid — defect D5 repaired; LLO and Mercury onchain; int192); their documented rejections.
    The observation envelope is proved at byte level for ANY order of the two proto map fields and of the removal ids
-   (C16_observation_roundtrip).  Remaining PARTIAL part: the JSON-based retirement report / Mercury offchain config
-   have no Coq model; their round-trip verdict is computed on the implementation on every run. *)
+   (C16_observation_roundtrip); the retirement report through its JSON codec at byte level (C16_retirement_roundtrip).
+   Remaining PARTIAL part: the Mercury offchain config (JSON with a decimal string) has no Coq model; its round-trip
+   verdict is computed on the implementation on every run. *)
 From stdpp Require Import gmap.
 From DS Require Import Base Decimal Wire StreamValue Config Outcome OutcomeCodec ObservationCodec.
-From DS Require Import WireProofs StreamValueProofs ConfigProofs OutcomeRoundTrip ObservationRoundTrip.
+From DS Require Import RetirementJson.
+From DS Require Import WireProofs StreamValueProofs ConfigProofs OutcomeRoundTrip ObservationRoundTrip RetirementProofs.
 Open Scope Z_scope.
 
 (* stream values: Decimal (any sign incl. negative zero, any int32 scale), Quote, TimestampedStreamValue *)
@@ -36,6 +38,19 @@ Proof. exact observation_roundtrip. Qed.
 Print Assumptions C16_observation_roundtrip.
 Theorem C16_no_duplicate_means_accepted : forall l, List.NoDup l -> has_dup l = false.
 Proof. exact has_dup_nodup. Qed.
+
+(* retirement report (encoding/json of RetirementReport; map keys sorted as STRINGS, nil map = null): decoding the
+   bytes the predecessor's codec wrote returns the protocol version and every validity start, any number of channels *)
+Theorem C16_retirement_roundtrip : forall pver va,
+  0 <= pver -> (forall m, va = Some m -> map_Forall (fun k v => 0 <= k /\ 0 <= v) m) ->
+  rr_decode (rr_encode pver va) = Some (pver, va).
+Proof. exact rr_roundtrip. Qed.
+Print Assumptions C16_retirement_roundtrip.
+Example C16_nv_retirement :
+  rr_encode 1 (Some (list_to_map [(2, 5); (10, 7); (1, 18446744073709551615)])) =
+    str_bytes "{""ProtocolVersion"":1,""ValidAfterNanoseconds"":{""1"":18446744073709551615,""10"":7,""2"":5}}" /\
+  rr_encode 0 None = str_bytes "{""ProtocolVersion"":0,""ValidAfterNanoseconds"":null}".
+Proof. split; vm_compute; reflexivity. Qed.
 
 (* LLO offchain config: round-trips when valid (version 0 with interval 0, version 1 with interval >= 1), is an
    error otherwise; undecodable bytes give the documented zero configuration *)
